@@ -37,7 +37,7 @@ TOLERANCES = {
     "unit vector": "1e-12",
 }
 REQUIRED_LABELS = ["beam:flux:clamp", "beam:flux:diverging", "beam:flux:nonuniform", "beam:flux:no-stopping", "beam:flux:nested-nodes",
-                   "beam:flux:4-node-minimum", "beam:flux:neutral-before-ions", "beam:flux:explicit-calculate"]
+                   "beam:flux:4-node-minimum", "beam:flux:neutral-before-ions", "beam:flux:explicit-calculate", "beam:flux:two-beams"]
 
 AMU, E = K.atomic_mass, K.e
 BEAM_ELEMENTS = ["hydrogen", "deuterium", "tritium", "helium"]
@@ -103,6 +103,14 @@ def strategy(draw):
         "pnode": draw(st.one_of(st.none(), st.none(), st.tuples(st.lists(st.floats(-1.0, 1.0), min_size=3, max_size=3),
                                                                  st.lists(st.sampled_from([0.0, 45.0, -120.0]), min_size=3, max_size=3)))),
         "zs": [draw(st.floats(0.0, 1.0)) for _ in range(5)],
+        # a second beam in the same world, fed by the same plasma (interference / repeat relations)
+        "beam2": draw(st.one_of(st.none(), st.fixed_dictionaries({
+            "energy": st.floats(1e3, 1e5), "power": st.floats(1e3, 5e6), "bel": st.sampled_from(BEAM_ELEMENTS),
+            "sigma": st.floats(0.01, 0.2), "divx": st.sampled_from([0.0, 0.7, 4.0]), "divy": st.sampled_from([0.0, 1.5, 2.0]),
+            "length": st.floats(0.5, 4.0), "step": st.sampled_from([0.005, 0.02, 0.05, 0.3]),
+            "clamp": st.booleans(), "clamp_sigma": st.floats(0.5, 6.0),
+            "bt": st.lists(st.floats(-1.0, 1.0), min_size=3, max_size=3), "br": st.lists(st.floats(-180.0, 180.0), min_size=3, max_size=3),
+            "same_attenuator_class_defaults": st.booleans(), "when": st.sampled_from(["before", "between", "between"])}))),
         "probe": [draw(st.floats(-2.5, 2.5)), draw(st.floats(-2.5, 2.5)), draw(st.floats(0.02, 0.6)), draw(st.floats(0.5, 1.0))],
     }
 
@@ -191,21 +199,38 @@ def build(case):
     if case.get("order") == "reversed":
         comp.reverse()
     plasma.composition = comp
-    beam = Beam(parent=bparent, transform=ray_matrix(case["bt"], case["br"]))
-    beam.plasma = plasma
-    beam.atomic_data = MockData(table)
-    beam.energy = case["energy"]
-    beam.power = case["power"]
-    beam.element = getattr(EL, case["bel"])
-    beam.sigma = case["sigma"]
-    beam.divergence_x = case["divx"]
-    beam.divergence_y = case["divy"]
-    beam.length = case["length"]
-    beam.attenuator = SingleRayAttenuator(step=case["step"], clamp_to_zero=case["clamp"], clamp_sigma=case["clamp_sigma"])
+    data = MockData(table)
+    beam = make_beam(case, bparent, plasma, data)
     if case.get("explicit_calc"):
         # the documented explicit trigger instead of the lazy evaluation on the first density() call
         beam.attenuator.calculate_attenuation()
     return world, plasma, beam, own
+
+
+def make_beam(c, parent, plasma, data):
+    beam = Beam(parent=parent, transform=ray_matrix(c["bt"], c["br"]))
+    beam.plasma = plasma
+    beam.atomic_data = data
+    beam.energy = c["energy"]
+    beam.power = c["power"]
+    beam.element = getattr(EL, c["bel"])
+    beam.sigma = c["sigma"]
+    beam.divergence_x = c["divx"]
+    beam.divergence_y = c["divy"]
+    beam.length = c["length"]
+    beam.attenuator = SingleRayAttenuator(step=c["step"], clamp_to_zero=c["clamp"], clamp_sigma=c["clamp_sigma"])
+    return beam
+
+
+def probe_points(c, us):
+    """sample points of a beam (its own coordinates), from the unit-cube numbers `us`"""
+    tx, ty = math.tan(math.radians(c["divx"])), math.tan(math.radians(c["divy"]))
+    pts = []
+    for i, u in enumerate(us):
+        z = u * c["length"]
+        sx, sy = math.sqrt(c["sigma"] ** 2 + (z * tx) ** 2), math.sqrt(c["sigma"] ** 2 + (z * ty) ** 2)
+        pts.append(((0.3 * i - 0.5) * sx, (0.4 - 0.25 * i) * sy, z))
+    return pts + [(0.0, 0.0, 0.0), (0.0, 0.0, c["length"])]
 
 
 # ------------------------------------------------------------------------------------------------ oracle
@@ -217,6 +242,22 @@ def run(case, ctx):
     with ctx.cut("construct"):
         world, plasma, beam, own = build(case)
     L, sig = case["length"], case["sigma"]
+    b2c = case.get("beam2")
+    beam2 = first = None
+    if b2c:
+        # a second live beam (other parameters, own attenuator, same plasma and provider): whatever is asked of it, and whenever,
+        # the first beam answers as if it were alone (the flux oracle below judges the first beam with beam 2 alive), and
+        # beam 2 - first used after beam 1, or before it - meets its own source density and its own zeros
+        pts1 = probe_points(case, case["zs"])
+        pts2 = probe_points(b2c, case["zs"][::-1])
+        with ctx.cut("construct"):
+            beam2 = make_beam(b2c, world, plasma, beam.atomic_data)
+        if b2c["when"] == "before":
+            with ctx.cut("Beam.density"):
+                second_first = [beam2.density(*p) for p in pts2]
+        with ctx.cut("Beam.density"):
+            first = [beam.density(*p) for p in pts1]
+        ctx.label("flux:two-beams")
     tx, ty = math.tan(math.radians(case["divx"])), math.tan(math.radians(case["divy"]))
     m_el = getattr(EL, case["bel"]).atomic_weight
     v = math.sqrt(2 * case["energy"] * E / AMU)
@@ -400,6 +441,29 @@ def run(case, ctx):
     s1x, s1y = sxy(z1)
     ctx.close([xc / s1x, yc / s1y], [x0 / sx, y0 / sy], "streamline", rtol=0, atol=1e-6 * (abs(px) + abs(py) + 1e-3))
     ctx.label("streamline")
+    if b2c:
+        with ctx.cut("Beam.density"):
+            second = [beam2.density(*p) for p in pts2]
+            dir2 = beam2.direction(*pts2[0])
+            again = [beam.density(*p) for p in pts1]
+        ctx.check([float(a).hex() for a in again] == [float(a).hex() for a in first], "two-beams-repeat",
+                  lambda: "beam 1 answers differently after beam 2 was used: %r then %r at %r" % (first, again, pts1))
+        if b2c["when"] == "before":
+            ctx.check([float(a).hex() for a in second] == [float(a).hex() for a in second_first], "two-beams-repeat",
+                      lambda: "beam 2 answers differently after beam 1 was used: %r then %r" % (second_first, second))
+        m2 = getattr(EL, b2c["bel"]).atomic_weight
+        v2 = math.sqrt(2 * b2c["energy"] * E / AMU)
+        src2 = b2c["power"] / (b2c["energy"] * m2 * E) / v2 / (2 * math.pi * b2c["sigma"] ** 2)
+        ctx.close(second[-2], src2, "two-beams-source", rtol=1e-9, info="on-axis density of beam 2 at its source")
+        l2 = math.sqrt(dir2.x ** 2 + dir2.y ** 2 + dir2.z ** 2)
+        ctx.check(abs(l2 - 1) <= 1e-12, "direction-unit", lambda: "|direction| of beam 2 = %r" % l2)
+        # an independent single-beam world with beam 2's parameters gives the same numbers (same arithmetic: bit for bit)
+        with ctx.cut("construct"):
+            w3, p3, b3, _ = build(dict(case, beam2=None, explicit_calc=False, bnode=None, **{k: b2c[k] for k in
+                                       ("energy", "power", "bel", "sigma", "divx", "divy", "length", "step", "clamp", "clamp_sigma", "bt", "br")}))
+        with ctx.cut("Beam.density"):
+            alone = [b3.density(*p) for p in pts2]
+        ctx.close(second, alone, "two-beams-alone", rtol=1e-12, info="beam 2 next to beam 1 vs beam 2 alone in a fresh world")
     ctx.nt((diverging and stopping and nonuniform) or case["clamp"])
 
 
